@@ -348,6 +348,11 @@ func FieldLoadCode(f *FlagData, argName, argTypeName, validate string, defaultVa
 		} else {
 			var checkErr bool
 			code, declErr, checkErr = conversionCode(f.FullName, argName, argTypeName, !f.Required && defaultValue == nil)
+			if !checkErr && validate != "" {
+				// the conversion cannot fail and thus does not define err (e.g.
+				// bytes), the validation code assigns it.
+				declErr = true
+			}
 			if checkErr {
 				code += "\nif err != nil {\n"
 				nilVal := "nil"
@@ -366,8 +371,6 @@ func FieldLoadCode(f *FlagData, argName, argTypeName, validate string, defaultVa
 			}
 		}
 		if validate != "" {
-			// the validation code assigns err whatever the conversion does
-			declErr = true
 			nilCheck := "if " + argName + " != nil {"
 			if strings.HasPrefix(validate, nilCheck) {
 				// hackety hack... the validation code is generated for the client and needs to
